@@ -49,6 +49,45 @@ def assemble(vec, func, lib):
     return b"f __module__\0" + body + b"e\0"
 
 
+# sequences of foreign calls in one program: (library in {A, B, missing}, function) ------------------------------------
+SEQ_CALLS = [(lib, fn_) for lib in ("A", "B", "missing") for fn_ in ("echo", "last", "nothing", "fail", "nosym")]
+
+
+def lib_path(lib):
+    return {"A": build.PROBE_LIB, "B": build.PROBE2_LIB, "missing": build.PROBE_LIB + ".missing"}[lib]
+
+
+def assemble_seq(seq):
+    """each step: void; push int k+1 and str "s"; call_lib; printn *; ... ; sentinel"""
+    body = b""
+    for k, (lib, fn_) in enumerate(seq):
+        sym = "no_such_symbol" if fn_ == "nosym" else fn_
+        body += ins("void") + ins("make_int", str(k + 1)) + ins("make_str", "s") + ins("call_lib", lib_path(lib), sym) + ins("printn", "*")
+    body += ins("void") + ins("make_str", "SENTINEL") + ins("printn", "*") + ins("void") + ins("ret_mod")
+    return b"f __module__\0" + body + b"e\0"
+
+
+def expected_seq(seq):
+    """-> (stdout lines, failing step index or None, message fragment)"""
+    out = []
+    for k, (lib, fn_) in enumerate(seq):
+        if lib == "missing":
+            return out, k, "Could not open FFI Library"
+        if fn_ == "nosym":
+            return out, k, "Could not find symbol"
+        if fn_ == "fail":
+            return out, k, "probe-raised-error"
+        tag = "B" if lib == "B" else ""
+        if fn_ == "echo":
+            out.append(f'Str:{tag}[int:{k + 1};str:"s"]')
+        elif fn_ == "last":
+            out.append("Str:s")
+        else:
+            out.append("")
+    out.append("Str:SENTINEL")
+    return out, None, None
+
+
 def rust_str_debug(s):
     return '"' + s.replace("\\", "\\\\").replace('"', '\\"') + '"'
 
@@ -59,7 +98,8 @@ class C19(Check):
     need_probe = True
     rule = ("all argument vectors of length 0..L over {int,bigint,float,byte,bool,str} (two values per kind at "
             "length <=2, one value per kind above) x probe functions {echo, last, nothing, fail, missing library, "
-            "missing symbol, two chained calls}; each assembled as a binary .mmm and executed with `mscript execute`. "
+            "missing symbol, two chained calls}; all sequences of 2 (thorough: 3) foreign calls over {library A, library B with the same "
+            "symbols, missing library} x {echo, last, nothing, fail, missing symbol}; each assembled as a binary .mmm and executed with `mscript execute`. "
             "Non-trivial = vector length >= 1; distinct = distinct (vector, function).")
     assumptions = ["probe dylib built against /repo/bytecode in the same cargo target dir",
                    "values owning GC memory (lists, objects, functions) are outside the alphabet",
@@ -84,17 +124,52 @@ class C19(Check):
                     continue
                 for f in FUNCS:
                     yield (vec, f)
-        ls = [("L0-len<=2", list(gen(2))), ("L1-len<=4", gen(4, 3))]
+        seq2 = [("seq", c) for c in itertools.product(range(len(SEQ_CALLS)), repeat=2)]
+        ls = [("L0-len<=2", list(gen(2))), ("L0b-call-sequences-of-2", seq2), ("L1-len<=4", gen(4, 3))]
+        if L > 4:
+            ls.append(("L1b-call-sequences-of-3", [("seq", c) for c in itertools.product(range(len(SEQ_CALLS)), repeat=3)]))
         if L > 4:
             ls.append(("L2-len5", gen(5, 5)))
             ls.append(("L3-len6", gen(6, 6)))
         return ls
 
     def describe(self, case):
+        if case[0] == "seq":
+            return {"sequence": [f"{SEQ_CALLS[i][1]}@{SEQ_CALLS[i][0]}" for i in case[1]]}
         vec, f = case
         return {"args": [f"{k}:{VALS[k][i][1]}" for k, i in vec], "function": f}
 
+    def run_seq(self, case):
+        seq = [SEQ_CALLS[i] for i in case[1]]
+        d = driver.fresh_dir()
+        prog = assemble_seq(seq)
+        driver.write_files(d, {"a.mmm": prog})
+        res = driver.run(["execute", "a.mmm"], d, env={"MSCRIPT_VERIF_TYPED_PRINT": "1"})
+        lines = res.lines()
+        exp, failing, msg = expected_seq(seq)
+        desc = self.describe(case)
+        viol = []
+        detail = {"case": desc, "files": {"a.mmm": prog}, "res": res.brief(), "expected": exp, "failing_step": failing}
+
+        def bad(kind, what):
+            viol.append({"sig": {"kind": kind, "func": "sequence", "shape": ",".join(f"{l}:{f}" for l, f in seq)},
+                         "what": f"{desc['sequence']}: {what}", "detail": detail})
+        if failing is None:
+            if res.exit != 0 or lines != exp:
+                bad("wrong-result", f"expected {exp} exit 0, got {lines} exit {res.exit}")
+        else:
+            if res.exit == 0 or res.cls != "error":
+                bad("fault-not-error", f"step {failing} must stop the program with a run-time error; got {res.cls} ({res.exit}) and {lines}")
+            else:
+                if lines != exp:
+                    bad("output-before-fault", f"expected {exp} before the failing call, got {lines}")
+                if msg not in res.err:
+                    bad("message-lost", f"error text does not carry {msg!r}")
+        return {"outcome": "seq-ok" if failing is None else "seq-err", "viol": viol, "nontrivial": True, "tags": ["seq"]}
+
     def run_case(self, case):
+        if case[0] == "seq":
+            return self.run_seq(case)
         vec, func = case
         d = driver.fresh_dir()
         prog = assemble(vec, func, build.PROBE_LIB)
@@ -145,7 +220,7 @@ class C19(Check):
 
     def finish(self, stats, tier):
         errs = []
-        for f in FUNCS:
+        for f in FUNCS + ["seq"]:
             if not stats["tags"].get(f):
                 errs.append(f"vacuity: function {f} never exercised")
         return errs
